@@ -75,6 +75,10 @@ def ops_for(fnlabel):
     }
     if fnlabel in m:
         return m[fnlabel]
+    if fnlabel.startswith('info::attr_value_from_name'):
+        return ['info.attr_value']
+    if fnlabel == 'XmlDocumentTypeDeclaration::node':
+        return ['info.build_print']
     if fnlabel.startswith('HasChildren::') or fnlabel.endswith('::insert_by_id'):
         return ['dom.tree_atomic']
     if fnlabel == 'dom::XmlNode::order':
@@ -169,6 +173,10 @@ def search(pid, ob, repo, scratch):
         env['REPLAY_POLICY'] = 'whole' if pid == 'C15' else 'fragment'
         # a safety obligation names its failing sites (file:line): prefer a witness that panics exactly there
         sites = [m.group(1) for s in (ob.get('sites') or []) for m in [re.search(r'@([\w/\.]+:\d+)$', s)] if m]
+        if ob.get('kind') == 'termination':
+            sites = ['unbounded recursion', 'HANG']
+        if ob.get('kind') == 'termination':
+            sites = ['unbounded recursion', 'HANG']
         # edit-history grids: prefer the scenario that exercises the function whose obligation failed
         prefer = {'HasChildren::append': 'append_new_after_child_with_descendants', 'HasChildren::insert_before': 'move_within_parent_before',
                   'XmlElement::last_child_or_self_id': 'append_new_after_child_with_descendants', 'XmlDocument::last_child_or_self_id': 'append_new_after_child_with_descendants',
